@@ -23,6 +23,7 @@ func RunOne(args ...string) ([]byte, string, error) {
 	self, _ := os.Executable()
 	a := append([]string{"-c", fmt.Sprintf("ulimit -v %d; exec \"$0\" \"$@\"", MemLimitKB), self}, args...)
 	cmd := exec.Command("bash", a...)
+	cmd.Env = append(os.Environ(), fmt.Sprintf("GOMEMLIMIT=%dKiB", MemLimitKB/2))
 	var errb strings.Builder
 	cmd.Stderr = &errb
 	out, err := cmd.Output()
@@ -76,7 +77,9 @@ func Run(n, par int, extraEnv []string, decode func(i int, raw []byte) error) {
 			defer func() { <-sem }()
 			// address-space limit: a runaway allocation must kill the worker, not the sandbox
 			cmd := exec.Command("bash", "-c", fmt.Sprintf("ulimit -v %d; exec \"$0\" \"$@\"", MemLimitKB), self, "--shard", fmt.Sprintf("%d/%d", i, n))
-			cmd.Env = append(os.Environ(), extraEnv...)
+			// soft heap limit at half the address-space limit: the collector works harder before the hard limit is near
+			// (a starved machine lets garbage pile up; one runaway allocation still dies at once)
+			cmd.Env = append(append(os.Environ(), fmt.Sprintf("GOMEMLIMIT=%dKiB", MemLimitKB/2)), extraEnv...)
 			var errb tailBuf
 			cmd.Stderr = &errb
 			out, err := cmd.StdoutPipe()
